@@ -158,6 +158,8 @@ def orphans(path):
     st_ = FileStorage(path)
     toc = TOC.read(st_, "MAIN")
     live = set(s.segment_id() for s in toc.segments)
+    # a segment that was packed into a compound file consists of that file alone
+    packed = set(s.segment_id() for s in toc.segments if getattr(s, "compound", False))
     tocp, segp = TOC._pattern("MAIN"), TOC._segment_pattern("MAIN")
     bad, other = [], []
     for fn in sorted(os.listdir(path)):
@@ -169,6 +171,8 @@ def orphans(path):
         m = segp.match(fn)
         if m:
             if m.group(1) not in live:
+                bad.append(fn)
+            elif m.group(1) in packed and fn != m.group(1) + ".seg":
                 bad.append(fn)
             continue
         if fn != "MAIN_WRITELOCK":
